@@ -195,6 +195,32 @@ def run(tier, seed):
                 skipped += 1
         ev.case(("beat", r["ref"], r["est"], r["thr"]), nontrivial=o["ps"]["score"][0] > 0)
     ev.sample({"model": "MC_C04_beat", "row": brow[len(brow) // 2]})
+    # melody end to end: zero-padding, resampling onto the reference time base, the five measures
+    res = tlc.run("MC_C04_melrs", cfg="MC_C04_melrs_T" if thorough else "MC_C04_melrs", timeout=3400, heap="8g")
+    mrow = res["rows"]["ROW"]
+    if len(mrow) * 2 != res["distinct"]:
+        raise Machinery("MC_C04_melrs: %d rows for %d states" % (len(mrow), res["distinct"]))
+    ev.tlc("MC_C04_melrs", res, "MelodyPre.tla (to_cent_voicing + measures); invariant Sane")
+    HOP = 1.0 / 64
+
+    def series(s_, sign_unvoiced):
+        t = np.array(s_["t"], dtype=float) * HOP
+        f = np.array([0.0 if c == 0 else (10.0 * 2.0 ** (c / 1200.0)) * (1.0 if v else sign_unvoiced) for c, v in zip(s_["c"], s_["v"])])
+        return t, f
+    for k, r in enumerate(mrow):
+        if (k + seed) % (2 if thorough else 5):
+            continue
+        rt, rf = series(r["ref"], -1.0)
+        et, ef = series(r["est"], -1.0)
+        o = r["out"]
+        d = {"ref_time": rt.tolist(), "ref_freq": rf.tolist(), "est_time": et.tolist(), "est_freq": ef.tolist()}
+        want_cv = [fr(x) for key in ("rv", "rc", "ev", "ec") for x in o["cv"][key]]
+        check("melody.to_cent_voicing", lambda: np.concatenate([np.asarray(a, dtype=float) for a in me.melody.to_cent_voicing(rt, rf, et, ef)]), want_cv, d,
+              cls="to_cent_voicing-differs")
+        check("melody.evaluate", lambda: list(me.melody.evaluate(rt, rf, et, ef).values()),
+              [fr(o["recall"]), fr(o["fa"]), fr(o["rpa"]), fr(o["rca"]), fr(o["oa"])], d)
+        ev.case(("melrs", r["ref"], r["est"]), nontrivial=r["ref"]["t"] != r["est"]["t"])
+    ev.sample({"model": "MC_C04_melrs", "row": mrow[len(mrow) // 2]})
     # pattern discovery scores
     res = tlc.run("MC_C04_pattern", cfg="MC_C04_pattern", timeout=3000, heap="8g")
     prow = res["rows"]["ROW"]
